@@ -204,14 +204,14 @@ def via_collection(s, idx):
 
 def run(s):
     q = s.tier == 'quick'
-    n = 30 if q else 1200
+    n = 50 if q else 3000
     idx = 0
     for i in range(n):
         for kind in CARRYING:
             idx += 1
             if s.mine(idx):
                 case(s, idx, kind)
-    for c in range(40 if q else 1000):
+    for c in range(60 if q else 2500):
         if s.mine(c):
             via_collection(s, c)
 
